@@ -68,7 +68,12 @@ func parseMetric(buf []byte, schemas persister.WhisperSchemas, orgId int) (*sche
 	name := elements[0]
 	tags := elements[1:]
 	sort.Strings(tags)
-	nameWithTags = fmt.Sprintf("%s;%s", name, strings.Join(tags, ";"))
+	// the series name as graphite presents it to the storage-schemas patterns:
+	// the plain name for an untagged series, name;tag1=v1;tag2=v2 for a tagged one
+	nameWithTags = name
+	if len(tags) > 0 {
+		nameWithTags = name + ";" + strings.Join(tags, ";")
+	}
 	s, ok := schemas.Match(nameWithTags)
 	if !ok {
 		panic(fmt.Errorf("couldn't find a schema for %q - this is impossible since we asserted there was a default with patt .*", name))
